@@ -242,6 +242,10 @@ def render_v2000(M, rng, perm=None, opts=None):
     rad = [(pos[k], a["rad"]) for k, a in enumerate(M["atoms"]) if a["rad"] or (o["zeros"] and rng.random() < 0.5)]
     iso = [(pos[k], a["mass"]) for k, a in enumerate(M["atoms"])
            if a["mass"] and (not (o["dt"] and a["sym"] == "H" and a["mass"] in (2, 3)) or o["isodt"])]
+    if o["zeros"] and iso:
+        # a writer that lists every atom next to a real label: the default 0 for the others (also for D / T written by symbol)
+        iso += [(pos[k], 0) for k, a in enumerate(M["atoms"]) if (not a["mass"] or (o["dt"] and a["sym"] == "H" and a["mass"] in (2, 3) and not o["isodt"]))
+                and rng.random() < 0.6]
     C = plines("CHG", chg) if with_lines else []
     R = plines("RAD", rad) if with_lines else []
     if o["mode"] == "stale" and not C and not R:
@@ -254,8 +258,16 @@ def render_v2000(M, rng, perm=None, opts=None):
         allp = C + R + I
         rng.shuffle(allp)
         blocks = [allp[:len(allp) // 2], extra, allp[len(allp) // 2:]]
-    for b in blocks:
-        lines += b
+    plist = [l for b in blocks for l in b if l not in extra]
+    if extra:
+        # unrelated entries anywhere between the property lines (two-line entries stay together)
+        units = [["M  STY  1   1 SUP"], ["M  SAL   1  1   1"], ["M  SMT   1 Me"], ["A    1", "an alias"], ["V    1 a value"], ["G    1  1", "Et"],
+                 ["M  ALS   1  2 F C   N   "], ["M  RGP  1   1   1"]]
+        for u in units:
+            k = rng.randint(0, len(plist))
+            plist[k:k] = ["\0".join(u)]
+        plist = [x for l in plist for x in l.split("\0")]
+    lines += plist
     lines.append("M  END")
     if o["trail"]:
         lines += ["> <NOTE>", "M  CHG  1   1   1", "M  RAD  1   1   2", "M  ISO  1   1  15", "", "$$$$", "second", "", "",
